@@ -414,7 +414,54 @@ def c23(idx: Index, rep: Report, tier: str) -> None:
         compat_directional(rep, "C23.1 T22 target-accepts-value-direction", idx.func(q), tw, vw)
 
 
-EXTRA2 = {"C04": c04, "C05": c05, "C07": c07, "C06": c06, "C08": c08, "C11": c11, "C12": c12, "C13": c13, "C16": c16, "C22": c22, "C23": c23}
+def auxiliary_fluents_initialised(idx: Index, rep: Report, rule: str) -> None:
+    """A fluent that a compiler adds to the compiled problem without a default initial value is undefined in the
+    initial state unless its values are copied from the input problem (`for … in problem.initial_values.items():
+    new_problem.set_initial_value(…)`, in the function itself or in a helper of compilers/utils it passes the new
+    problem to). An undefined fluent gives the compiled problem an UNDEFINED_INITIAL_* feature; none of the compilers
+    declares introducing one."""
+    def copies_initial_values(fn: ast.AST) -> bool:
+        for l in walk_no_nested(fn):
+            if isinstance(l, ast.For) and any(isinstance(a, ast.Attribute) and a.attr == "initial_values" for a in ast.walk(l.iter)):
+                if any(isinstance(c, ast.Call) and call_name(c) == "set_initial_value" for b in l.body for c in ast.walk(b)):
+                    return True
+        return False
+
+    utils = idx.module("engines.compilers.utils")
+    util_copiers = {f.name for f in idx.all_funcs() if f.module is utils and copies_initial_values(f.node)}
+    n = 0
+    n_bare = 0
+    for f in idx.all_funcs():
+        if not f.module.name.startswith("unified_planning.engines.compilers.") or f.module is utils:
+            continue
+        adds = [c for c in walk_no_nested(f.node) if isinstance(c, ast.Call) and call_name(c) == "add_fluent" and isinstance(c.func, ast.Attribute)]
+        if not adds:
+            continue
+        # the class may declare that it introduces undefined initial values
+        declares = False
+        if f.cls is not None:
+            rk = f.cls.methods.get("resulting_problem_kind")
+            declares = rk is not None and any(s.startswith("UNDEFINED_INITIAL") for s in str_consts(rk.node)) and any(isinstance(c, ast.Call) and call_name(c) == "set_initial_state" for c in ast.walk(rk.node))
+        copied = copies_initial_values(f.node) or any(isinstance(c, ast.Call) and call_name(c) in util_copiers for c in walk_no_nested(f.node))
+        for c in adds:
+            n += 1
+            has_default = len(c.args) >= 2 or any(k.arg == "default_initial_value" for k in c.keywords)
+            if has_default:
+                rep.ok(rule, f"{f.short}: added fluent has a default initial value", f.loc(c), construct=norm(c)[:80], function=f.qualname)
+                continue
+            n_bare += 1
+            ok = copied or declares
+            rep.check(ok, rule, f"{f.short}: a fluent added without default gets its values copied from the input problem", f.loc(c), construct=f"{norm(c)[:60]} — {'initial values copied' if copied else 'no default, no copy of problem.initial_values'}", detail="" if ok else "the fluent has no value in the initial state of the compiled problem: its kind gains UNDEFINED_INITIAL_SYMBOLIC / _NUMERIC, which resulting_problem_kind does not declare, and reading it raises UPStateMissingFluentError", function=f.qualname)
+    rep.count("add_fluent_sites_in_compilers", n)
+    rep.count("add_fluent_sites_without_default", n_bare)
+    rep.require_min(rule, "add_fluent_sites_in_compilers", 15)
+
+
+def c09(idx: Index, rep: Report, tier: str) -> None:
+    auxiliary_fluents_initialised(idx, rep, "C09.5 T17 added-fluents-initialised")
+
+
+EXTRA2 = {"C09": c09, "C04": c04, "C05": c05, "C07": c07, "C06": c06, "C08": c08, "C11": c11, "C12": c12, "C13": c13, "C16": c16, "C22": c22, "C23": c23}
 
 
 def run_extra2(prop: str, idx: Index, rep: Report, tier: str) -> None:
